@@ -15,6 +15,8 @@ FEEDBACKS = [
     ("get_whatever", "renamed", "bool", "bool"),
     ("get_label", None, "str", "str"),
     ("getter", None, "int", "int"),  # starts with 'get' but not 'get_': key is the full name
+    ("target_dist", None, "float", "float"),  # contains 'get_' in the middle: key is the full name
+    ("get_widget_count", None, "int", "int"),  # only the leading 'get_' is removed
     ("get_", None, "int", "int"),  # key becomes the empty string? -> see expected_key
     ("get_ints", None, "Sequence[int]", "ints"),
     ("get_floats", None, "list[float]", "floats"),
